@@ -39,6 +39,8 @@ var vtC03Plugin *Plugin
 type vtC03Quota struct {
 	id, parent int64
 	decl       [3]bool
+	lend       bool
+	args       []int64 // the record the current object was built from
 	obj        *v1alpha1.ElasticQuota
 }
 
@@ -82,6 +84,9 @@ func vtC03QuotaObj(id, parent int64, lend bool, decl [3]bool, a []int64) *v1alph
 	}
 	q.Labels[extension.LabelQuotaParent] = vtC03QuotaName(parent)
 	q.Labels[extension.LabelQuotaIsParent] = "false"
+	if id%2 == 0 { // quotas with an even id are the parent quotas (coq/C03/Model.v is_parent_id)
+		q.Labels[extension.LabelQuotaIsParent] = "true"
+	}
 	if !lend {
 		q.Labels[extension.LabelAllowLentResource] = "false"
 	}
@@ -155,13 +160,14 @@ func vtC03Exec(in []int64) []int64 {
 			_, exists := quotas[id]
 			okParent := parent == 0
 			if p, ok := quotas[parent]; ok && parent != 0 {
-				okParent = p.decl == decl
+				okParent = p.decl == decl && parent%2 == 0 && parent < id
 			}
 			if id <= 0 || exists || !okParent {
 				status = -1
 				break
 			}
-			q := &vtC03Quota{id: id, parent: parent, decl: decl, obj: vtC03QuotaObj(id, parent, a[2] != 0, decl, a)}
+			q := &vtC03Quota{id: id, parent: parent, decl: decl, lend: a[2] != 0, args: append([]int64(nil), a...),
+				obj: vtC03QuotaObj(id, parent, a[2] != 0, decl, a)}
 			quotas[id] = q
 			order = append(order, id)
 			pl.OnQuotaAdd(q.obj)
@@ -171,8 +177,18 @@ func vtC03Exec(in []int64) []int64 {
 				status = -1
 				break
 			}
-			lend := q.obj.Labels[extension.LabelAllowLentResource] != "false"
-			nq := vtC03QuotaObj(q.id, q.parent, lend, q.decl, a)
+			nq := vtC03QuotaObj(q.id, q.parent, q.lend, q.decl, a)
+			pl.OnQuotaUpdate(q.obj, nq)
+			q.obj = nq
+			q.args = append([]int64(nil), a...)
+		case 11: // FlipLend: the allow-lent-resource label changes, nothing else (a quota META change)
+			q, ok := quotas[a[0]]
+			if !ok {
+				status = -1
+				break
+			}
+			q.lend = !q.lend
+			nq := vtC03QuotaObj(q.id, q.parent, q.lend, q.decl, q.args)
 			pl.OnQuotaUpdate(q.obj, nq)
 			q.obj = nq
 		case 3, 8: // PodAdd / PodAddBound
@@ -390,6 +406,14 @@ func vtC03Gen(r *rand.Rand, i int) (string, []int64) {
 		}
 		if len(qs) > 0 && r.Intn(5) < 3 {
 			p := qs[r.Intn(len(qs))]
+			if p.id%2 != 0 && r.Intn(30) != 0 { // only parent quotas (even ids) can have children
+				for _, x := range qs {
+					if x.id%2 == 0 {
+						p = x
+						break
+					}
+				}
+			}
 			depth := 1
 			for c := p; c.parent != 0; depth++ {
 				for _, x := range qs {
@@ -408,17 +432,27 @@ func vtC03Gen(r *rand.Rand, i int) (string, []int64) {
 			decl[2] = !decl[2]
 		}
 		mx, mn, w := quotaVals(decl)
+		wantParent := r.Intn(5) < 2 // parent quotas have even ids
 		id := nextQ
-		nextQ++
+		if (id%2 == 0) != wantParent {
+			id++
+		}
+		nextQ = id + 1
+		if r.Intn(50) == 0 && parent != 0 {
+			id, parent = parent, id // rarely: a child whose id is not above its parent's (skipped by model and harness)
+		}
 		emit(1, id, parent, int64(r.Intn(2)), vtB(decl[0]), vtB(decl[1]), vtB(decl[2]),
 			mx[0], mx[1], mx[2], mn[0], mn[1], mn[2], w[0], w[1], w[2])
 		ok := parent == 0
 		for _, x := range qs {
-			if x.id == parent && x.decl == decl {
+			if x.id == parent && x.decl == decl && parent%2 == 0 && parent < id {
 				ok = true
 			}
+			if x.id == id {
+				ok = false
+			}
 		}
-		if ok {
+		if ok && id > 0 {
 			qs = append(qs, &vtC03GQ{id: id, parent: parent, decl: decl, max: mx})
 		}
 	}
@@ -555,8 +589,13 @@ func vtC03Gen(r *rand.Rand, i int) (string, []int64) {
 			}
 			q.max = mx
 			emit(2, q.id, 0, 0, 0, 0, 0, mx[0], mx[1], mx[2], mn[0], mn[1], mn[2], w[0], w[1], w[2])
-		case c < 93:
+		case c < 92:
 			capacity()
+		case c < 95: // quota meta change: the allow-lent-resource label of some quota flips (tree rebuild)
+			if len(qs) == 0 {
+				continue
+			}
+			emit(11, qs[r.Intn(len(qs))].id)
 		default:
 			addQuota()
 		}
